@@ -255,8 +255,11 @@ CHECKS.update({
              '_partial (+ refutation: a sole non-identifier argument is dropped), get_cases_wellformed, comparison_operands; closed '
              'finite pipeline families (C13Fin: 198 WHERE texts = conditions x followers x nesting, lists, calls, typed literals, comparisons; '
              'C13_fnwords_fin: every alphabetic word of the regenerated keyword dictionaries is a function name before `(`, except the six pinned). '
+             'The families are LIFTED by the relational invariance of C11 (C13_family_respelled, C13_where_respelled, ...): for every family text and EVERY text '
+             'whose token stream is related to it token by token (keyword tokens re-cased / inner white space re-spelled, white-space tokens with any white-space value) '
+             'the clause nodes of the two trees correspond one to one with the same structure -- each family text stands for unboundedly many spellings. '
              'Direct oracle on generated instances with known expected structure; 17 listed deviation classes (mechanism signatures), one fixed.',
-        note='Partial: pipeline composition beyond the finite families by oracle + correspondence; 17 known findings.',
+        note='Partial: pipeline composition beyond the finite families and their re-spellings by oracle + correspondence; 17 known findings.',
         design='7/C13', technique='Coq proof (pass = specification; accessor theorems; finite families) + correspondence + oracle'),
 })
 
